@@ -57,7 +57,9 @@ func TestC18_NetPools(t *testing.T) {
 			hp = append(hp, fmt.Sprint(cfg), len(sc.scripts))
 		}
 		// rpc plan
-		cl := rpc.NewClient(srv.Address(), rpc.ClientMode_OnDemand, netfx.NewLogger(), rpc.Default())
+		ro := rpc.Default()
+		ro.ClientDialTimeout = 30 * time.Second
+		cl := rpc.NewClient(srv.Address(), rpc.ClientMode_OnDemand, netfx.NewLogger(), ro)
 		defer cl.Close()
 		nc := rapid.IntRange(1, 24).Draw(rt, "ncalls")
 		var calls []*call
